@@ -639,6 +639,16 @@ pub fn c04(g: &mut Gen) {
             }
         }
     }
+    // large groups (more samples in a group than one parallel evaluation chunk of 64): 65, 70 = one group; 130 / 65 = two
+    // full groups; 100 / 70 = a full and a partial one; 200 > N
+    for (oi, (n, b)) in [(65usize, 65usize), (70, 70), (130, 65), (100, 70), (90, 200), (129, 128)].iter().enumerate() {
+        if !g.ctx.thorough() && oi % 2 == 1 { continue; }
+        let c = ArchCfg { conv: false, deconv: false, pool: false, flat_input: Some(true), ..cfg.clone() };
+        let builds = vec![Build::Layer(dense_spec(g, &c, 3, 4, "tanh", true)), Build::Layer(dense_spec(g, &c, 4, 2, "linear", oi % 2 == 0))];
+        let net = NetSpec { input: Shape::Single(3), builds, skipacc: "add".into(), loopacc: "mean".into(), opt: Some(opts[oi % opts.len()].clone()), obj: "mse".into(), clamp: None };
+        let s = samples_tok(g, &net, &Sh::Flat(2), *n);
+        g.push(format!("net {} learn {} {} 0 {} 2 0", net.token(), n, s, b), Tol::Loose, &format!("large-groups/N{}/B{}", n, b), true);
+    }
     // every bias on/off pattern of a three-layer MLP (the per-layer bias gradients are summed over the batch
     // layer by layer; a layer without bias sits between layers with one), B = 2 and B > N
     for pat in 0..8u32 {
@@ -854,6 +864,17 @@ pub fn c11(g: &mut Gen) {
             }
         }
     }
+    // several hundred repetitions (more than a byte counts): the combination over all of them is still the stated one —
+    // the mean divides by the number of repetitions, whatever it is
+    for loops in [255usize, 256, 257, 300] {
+        if !g.ctx.thorough() && loops == 300 { continue; }
+        for (acc, i, o) in [("mean", false, true), ("mean", true, true), ("add", false, true)] {
+            let flat = InnerSpec::Dense { out: 2, act: "linear".into(), bias: false, dropout: None, w: Tensor::double(vec![vec![0.0, 1.0], vec![-1.0, 0.0]]), b: None };
+            let netf = NetSpec { input: Shape::Single(2), builds: vec![Build::Feedback { inner: vec![flat], loops, inskips: i, outskips: o, acc: acc.into() }],
+                skipacc: "add".into(), loopacc: "mean".into(), opt: None, obj: "mse".into(), clamp: None };
+            g.push(format!("net {} predict {}", netf.token(), qt(&Tensor::single(vec![0.75, -0.5]))), Tol::Tight, &format!("many-loops/{}/L{}", acc, loops), true);
+        }
+    }
     // multiplicative accumulation at the edge of the number range: a repetition that overflows to infinity times a
     // zero of the block input is NaN, not zero (element-wise IEEE arithmetic in the accumulation, also at rank 3)
     {
@@ -933,6 +954,41 @@ pub fn c10(g: &mut Gen) {
             netv.opt = Some(opts[(loops + 2) % opts.len()].clone());
             let sv = samples_tok(g, &netv, &Sh::Vol(1, 3, 4), 2);
             g.push(format!("net {} learn 2 {} 0 2 2 0", netv.token(), sv), Tol::Loose, &format!("learn/widening-deconv/L{}", loops), true);
+        }
+    }
+    // many repetitions (loop counts that are not powers of two: 5 … 12, 17, 24) and parameter counts of every residue:
+    // the reported count is still that of ONE repetition, exactly
+    for loops in [5usize, 6, 7, 9, 10, 11, 12, 17, 24] {
+        for (a, b, bias) in [(3usize, 5usize, true), (2, 2, false), (1, 1, true), (4, 3, true), (7, 1, false)] {
+            if !g.ctx.thorough() && (loops + a) % 2 == 0 && loops > 7 { continue; }
+            let d1 = dense_spec(g, &cfg, a, b, "tanh", bias);
+            let d2 = dense_spec(g, &cfg, b, a, "tanh", !bias);
+            let net = NetSpec { input: Shape::Single(a), builds: vec![Build::Feedback { inner: vec![d1, d2], loops, inskips: false, outskips: false, acc: "mean".into() }],
+                skipacc: "add".into(), loopacc: "mean".into(), opt: None, obj: "mse".into(), clamp: None };
+            g.push(format!("net {} shapes", net.token()), Tol::Exact, &format!("parameters/many-loops/L{}", loops), true);
+            let d = dense_spec(g, &cfg, a, a, "tanh", bias);
+            let net1 = NetSpec { input: Shape::Single(a), builds: vec![Build::Feedback { inner: vec![d], loops, inskips: false, outskips: false, acc: "add".into() }],
+                skipacc: "add".into(), loopacc: "mean".into(), opt: None, obj: "mse".into(), clamp: None };
+            g.push(format!("net {} shapes", net1.token()), Tol::Exact, &format!("parameters/many-loops-single/L{}", loops), true);
+        }
+    }
+    // rectangular kernels (height != width, also with several channels and filters) inside and outside a block: the count
+    // is filters x channels x height x width
+    for (k, p) in [((3usize, 1usize), (1usize, 0usize)), ((1, 3), (0, 1)), ((5, 3), (2, 1)), ((1, 5), (0, 2))] {
+        for loops in [1usize, 2, 3] {
+            let c1 = InnerSpec::Conv { filters: 2, act: "tanh".into(), k, s: (1, 1), p, d: (1, 1), dropout: None, ks: (0..2).map(|_| weights(g, &Shape::Triple(1, k.0, k.1), 0.4)).collect() };
+            let c2 = InnerSpec::Conv { filters: 1, act: "tanh".into(), k: (k.1, k.0), s: (1, 1), p: (p.1, p.0), d: (1, 1), dropout: None, ks: vec![weights(g, &Shape::Triple(2, k.1, k.0), 0.4)] };
+            let netc = NetSpec { input: Shape::Triple(1, 5, 6), builds: vec![Build::Feedback { inner: vec![c1.clone(), c2], loops, inskips: false, outskips: false, acc: "mean".into() }],
+                skipacc: "add".into(), loopacc: "mean".into(), opt: None, obj: "mse".into(), clamp: None };
+            g.push(format!("net {} shapes", netc.token()), Tol::Exact, &format!("parameters/rectangular-kernels/L{}", loops), true);
+            let dc1 = InnerSpec::Deconv { filters: 1, act: "tanh".into(), k, s: (1, 1), p, dropout: None, ks: vec![weights(g, &Shape::Triple(1, k.0, k.1), 0.4)] };
+            let netd = NetSpec { input: Shape::Triple(1, 5, 6), builds: vec![Build::Feedback { inner: vec![dc1], loops, inskips: false, outskips: false, acc: "add".into() }],
+                skipacc: "add".into(), loopacc: "mean".into(), opt: None, obj: "mse".into(), clamp: None };
+            g.push(format!("net {} shapes", netd.token()), Tol::Exact, &format!("parameters/rectangular-kernels-deconv/L{}", loops), true);
+            if loops == 1 {
+                let plain = NetSpec { input: Shape::Triple(1, 5, 6), builds: vec![Build::Layer(c1)], skipacc: "add".into(), loopacc: "mean".into(), opt: None, obj: "mse".into(), clamp: None };
+                g.push(format!("net {} shapes", plain.token()), Tol::Exact, "parameters/rectangular-kernels-plain", true);
+            }
         }
     }
     // an accumulated parameter that leaves the single-precision range (2.5e38 + 2.5e38, 2.5e38², their mean): every copy
@@ -1370,6 +1426,46 @@ pub fn c01(g: &mut Gen) {
             let t = Tensor::single(vec![0.25]);
             g.push(format!("net {} backward {} {}", net.token(), qt(&x), qt(&t)), Tol::Tight, &format!("saturated/{}/{}", act, z), true);
         }
+    }
+    // activations that are EXACTLY zero where the derivative is not (a tanh filter whose kernel is all zero: output 0,
+    // derivative 1): the gradient a layer hands back does not depend on its input being non-zero, and the zero filter's
+    // kernel gradient is that gradient times the image
+    for second in ["conv", "deconv", "dense", "conv-linear"] {
+        let (h, w) = (3usize, 4usize);
+        let zero = Tensor::triple(vec![vec![vec![0.0; 3]; 3]]);
+        let first = InnerSpec::Conv { filters: 2, act: "tanh".into(), k: (3, 3), s: (1, 1), p: (1, 1), d: (1, 1), dropout: None,
+            ks: vec![weights(g, &Shape::Triple(1, 3, 3), 0.5), zero.clone()] };
+        let mut builds = vec![Build::Layer(first)];
+        let n_out = match second {
+            "conv" | "conv-linear" => {
+                builds.push(Build::Layer(InnerSpec::Conv { filters: 2, act: if second == "conv" { "tanh" } else { "linear" }.into(), k: (2, 3), s: (1, 1), p: (0, 1), d: (1, 1), dropout: None,
+                    ks: (0..2).map(|_| weights(g, &Shape::Triple(2, 2, 3), 0.5)).collect() }));
+                2 * (h - 1) * w
+            }
+            "deconv" => {
+                builds.push(Build::Layer(InnerSpec::Deconv { filters: 2, act: "tanh".into(), k: (2, 3), s: (2, 1), p: (0, 1), dropout: None,
+                    ks: (0..2).map(|_| weights(g, &Shape::Triple(2, 2, 3), 0.5)).collect() }));
+                2 * ((h - 1) * 2 + 2) * ((w - 1) + 3 - 2)
+            }
+            _ => 2 * h * w,
+        };
+        builds.push(Build::Layer(dense_spec(g, &cfg, n_out, 2, "tanh", true)));
+        let net = NetSpec { input: Shape::Triple(1, h, w), builds, skipacc: "add".into(), loopacc: "mean".into(), opt: None, obj: "mse".into(), clamp: None };
+        for _ in 0..2 {
+            let x = input_for(g, &net.input);
+            let t = target_for(g, &Sh::Flat(2), "mse");
+            g.push(format!("net {} backward {} {}", net.token(), qt(&x), qt(&t)), Tol::Tight, &format!("exact-zero-activations/{}", second), true);
+        }
+    }
+    // … and a dense unit with zero weights and bias in front of a dense layer
+    {
+        let c = ArchCfg { conv: false, deconv: false, pool: false, flat_input: Some(true), ..cfg.clone() };
+        let l1 = InnerSpec::Dense { out: 3, act: "tanh".into(), bias: true, dropout: None, w: Tensor::double(vec![vec![0.4, -0.3], vec![0.0, 0.0], vec![0.2, 0.5]]), b: Some(Tensor::single(vec![0.1, 0.0, -0.2])) };
+        let net = NetSpec { input: Shape::Single(2), builds: vec![Build::Layer(l1), Build::Layer(dense_spec(g, &c, 3, 3, "sigmoid", true)), Build::Layer(dense_spec(g, &c, 3, 2, "linear", false))],
+            skipacc: "add".into(), loopacc: "mean".into(), opt: None, obj: "mse".into(), clamp: None };
+        let x = input_for(g, &net.input);
+        let t = target_for(g, &Sh::Flat(2), "mse");
+        g.push(format!("net {} backward {} {}", net.token(), qt(&x), qt(&t)), Tol::Tight, "exact-zero-activations/dense-dense", true);
     }
     // a training run that stops early must leave the network in inference mode (the gradients asked for afterwards are
     // derivatives of the objective only without a dropout mask in the forward pass)
